@@ -18,7 +18,7 @@ func TestC34(t *testing.T) {
 	m := mon.New(t, "C34")
 	defer m.Done()
 	loadPool()
-	m.Rule("Setup A: case = (client configuration, scripted server policy) from the case PRNG; half of the indices run 12 directed templates (PK_OK for another key / another algorithm name, RSA keys and RSA certificates under every server-sig-algs variant x signer kind, endless partial success, AuthCallback that keeps returning a failing method, partial success with a changed list, lists without the client's methods, RetryableAuthMethod, success followed by a global request, signers without negotiable algorithm, publickey dropped from the list), the other half the free generator (1-3 methods in random order incl. Password/PasswordCallback/KeyboardInteractive/PublicKeys/PublicKeysCallback/RetryableAuthMethod/AuthCallback, 0-4 signers of 4 kinds x {plain, certificate} over rsa/ecdsa-256/384/521/ed25519). The real ssh.NewClientConn talks over a buffered in-memory duplex to a scripted server above ssh.VerifRawServer or above a harness-owned transport (the only way to send no EXT_INFO); the monitor replays the totally ordered packet log decoded by verif/ref/cauth. Setup B: real ssh.NewServerConn with partial-success chains of length 1-3; compatible combinations must authenticate, incompatible ones must fail on both sides. distinct = (template or free, transport, server-sig-algs variant, method set, signer classes, outcome); non-trivial = the dialogue reached at least the reply to the none request")
+	m.Rule("Setup A: case = (client configuration, scripted server policy) from the case PRNG; half of the indices run 14 directed templates (PK_OK for another key / another algorithm name, RSA keys and RSA certificates under every server-sig-algs variant x signer kind, endless partial success, AuthCallback that keeps returning a failing method, partial success with a changed list, lists without the client's methods, RetryableAuthMethod, success followed by a global request, signers without negotiable algorithm, publickey dropped from the list, a signer that fails to sign, a RetryableAuthMethod whose second run fails locally), the other half the free generator (1-3 methods in random order incl. Password/PasswordCallback/KeyboardInteractive/PublicKeys/PublicKeysCallback/RetryableAuthMethod/AuthCallback, 0-4 signers of 4 kinds x {plain, certificate} over rsa/ecdsa-256/384/521/ed25519). The real ssh.NewClientConn talks over a buffered in-memory duplex to a scripted server above ssh.VerifRawServer or above a harness-owned transport (the only way to send no EXT_INFO); the monitor replays the totally ordered packet log decoded by verif/ref/cauth. Setup B: real ssh.NewServerConn with partial-success chains of length 1-3; compatible combinations must authenticate, incompatible ones must fail on both sides. distinct = (template or free, transport, server-sig-algs variant, method set, signer classes, outcome); non-trivial = the dialogue reached at least the reply to the none request")
 	m.Assume("verif/ref/cauth (RFC 4252/4256 decoder, data-to-be-signed, signature verification with the standard library, documented algorithm choice) is validated by its own vector tests incl. OpenSSH-produced keys, certificates and signatures; Go standard library crypto/rsa, crypto/ecdsa, crypto/ed25519 verify correctly; ssh.VerifRawServer / VerifKexServer / VerifNewPacketCipher hooks transport packets faithfully")
 
 	runSetupA(m)
